@@ -170,8 +170,18 @@ def ofFullMatrix (k : Nat) (c : GInt) (W : Mat) : Option PauliB :=
 /-- the operator `X_q` (`isZ = false`) or `Z_q` on `k` qubits, as a binary Pauli -/
 def genPauli (k q : Nat) (isZ : Bool) : PauliB := ⟨false, false, if isZ then 2 ^ (k + q) else 2 ^ q⟩
 
+/-- the tableau stored from the recognised images `U X_q U†`, `U Z_q U†` (`clifford.py:44-51`):
+`cli_mat[:, j] = bit[2:]`, `cli_r[j] = (bit[0] + (x·z % 4)//2) % 2` -/
+def tabOfImages (k : Nat) (imgs : List PauliB) : Tab :=
+  { n := k
+    r := SpF2.ofFn (2 * k) fun j =>
+      let b := imgs.getD j ⟨false, false, 0⟩
+      (b.s0.toNat + (cnt k b.v (b.v >>> k) % 4) / 2) % 2 == 1
+    cols := (List.range (2 * k)).map fun j => (imgs.getD j ⟨false, false, 0⟩).v }
+
 /-- `clifford_array_to_F2(np0)` (`clifford.py:32-52`) for `np0 = U/√c` with `U` a Gaussian-integer matrix,
-`U U† = c·1`: the images `U X_q U†`, `U Z_q U†` are recognised by `from_full_matrix`; `none` = an `assert` fails. -/
+`U U† = c·1`: the images `U X_q U†`, `U Z_q U†` (`q = 0..k-1`) are recognised by `from_full_matrix` and stored by
+`tabOfImages`; `none` = an `assert` fails. -/
 def arrayToF2 (k : Nat) (U : Mat) : Option Tab :=
   let m := 2 ^ k
   let Ud := Mat.dagger m U
@@ -179,20 +189,10 @@ def arrayToF2 (k : Nat) (U : Mat) : Option Tab :=
   let c := UU.get 0 0
   if c == 0 || UU != Mat.scale c (pauliMat k ⟨false, false, 0⟩) then none
   else
-    let step := fun (acc : Option (Nat × List Nat)) (j : Nat) =>
-      match acc with
-      | none => none
-      | some (r, cols) =>
-        let g := genPauli k (j % k) (decide (k ≤ j))
-        match ofFullMatrix k c (Mat.mul m (Mat.mul m U (pauliMat k g)) Ud) with
-        | none => none
-        | some b =>
-          let xz := cnt k b.v (b.v >>> k)
-          let rbit := (b.s0.toNat + (xz % 4) / 2) % 2 == 1
-          some (if rbit then r ^^^ 2 ^ j else r, cols ++ [b.v])
-    match (List.range (2 * k)).foldl step (some (0, [])) with
+    match (List.range (2 * k)).mapM (fun j =>
+        ofFullMatrix k c (Mat.mul m (Mat.mul m U (pauliMat k (genPauli k (j % k) (decide (k ≤ j))))) Ud)) with
     | none => none
-    | some (r, cols) => some ⟨k, r, cols⟩
+    | some imgs => some (tabOfImages k imgs)
 
 /-! ### the eight basic gates (`_basic_clifford_dict`, `clifford.py:92-101`) -/
 
